@@ -417,6 +417,11 @@ impl<'a> Tx<'a> {
             "Guard::unprotected" => return "()".into(),
             "Shared::null" | "Atomic::null" => return "NULL".into(),
             "Atomic::from" | "Shared::from" => return self.expr(&c.args[0]),
+            "f" if self.ops => {
+                // R38: the user callback is an arbitrary fixed predicate of its arguments
+                let args: Vec<String> = c.args.iter().map(|a| self.expr(a)).collect();
+                return format!("pred({})", args.join(", "));
+            }
             "Some" if self.ops => {
                 let a = self.expr(&c.args[0]);
                 return format!("Some({})", a);
@@ -537,6 +542,16 @@ impl<'a> Tx<'a> {
                 // R29: self.hash(&key): the map's hasher is a fixed function of the key
                 let k = self.expr(&m.args[0]);
                 format!("h.hash_of({})", k)
+            }
+            "iter" if self.ops && toks(&*m.receiver) == "self" => "iter_new(h, this)".to_string(),
+            "next_internal" if self.ops => format!("iter_next(h, &mut {})", self.expr(&m.receiver)),
+            "replace_node" | "put" if self.ops && toks(&*m.receiver) == "self" => {
+                let mut all = vec!["h".to_string(), "this".to_string()];
+                for a in m.args.iter().filter(|a| !is_drop_arg(a)) {
+                    let v = self.expr(a);
+                    all.push(self.hoist(v));
+                }
+                format!("{}({})", name, all.join(", "))
             }
             "clone" if self.ops => {
                 // R35: cloning a key / an Atomic<V> of a node copies the key / the value id
@@ -913,6 +928,50 @@ impl<'a> Tx<'a> {
                 self.push(ind + 1, "it = it + 1;".into(), ln, true);
                 self.mark(ind + 1, format!("loophead:{}", k));
                 self.block(&fl.body, ind + 1);
+                self.mark(ind + 1, format!("loopend:{}", k));
+                self.push(ind, "}".into(), 0, false);
+            }
+            syn::Expr::While(w) if self.ops && matches!(&*w.cond, syn::Expr::Let(_)) => {
+                // R39: while let PAT = E { body }  ->  loop { let item = E; if item.is_none() { break; } let PAT' = item.unwrap(); body }
+                if let syn::Expr::Let(l) = &*w.cond {
+                    let e = self.expr(&l.expr);
+                    let inner = match &*l.pat { syn::Pat::TupleStruct(ts) if ts.elems.len() == 1 => toks(&ts.elems[0]), other => toks(other) };
+                    self.push(ind, "loop".into(), ln, false);
+                    let k = self.loop_count;
+                    self.loop_count += 1;
+                    self.mark(ind + 1, format!("loop:{}", k));
+                    self.push(ind, "{".into(), 0, false);
+                    self.push(ind + 1, format!("let it_item = {};", e), ln, true);
+                    self.push(ind + 1, "if it_item.is_none() {".into(), ln, false);
+                    self.push(ind + 2, "break;".into(), ln, true);
+                    self.push(ind + 1, "}".into(), 0, false);
+                    self.push(ind + 1, format!("let {} = it_item.unwrap();", inner), ln, true);
+                    self.mark(ind + 1, format!("loophead:{}", k));
+                    self.break_targets.push(None);
+                    self.block(&w.body, ind + 1);
+                    self.break_targets.pop();
+                    self.mark(ind + 1, format!("loopend:{}", k));
+                    self.push(ind, "}".into(), 0, false);
+                }
+            }
+            syn::Expr::ForLoop(fl) if self.ops && toks(&*fl.expr).replace(' ', "").starts_with("self.iter(") => {
+                // R40: for PAT in self.iter(guard) { body }: the same loop over a fresh iterator
+                let pat = toks(&*fl.pat);
+                self.push(ind, "let mut it_for = iter_new(h, this);".into(), ln, true);
+                self.push(ind, "loop".into(), ln, false);
+                let k = self.loop_count;
+                self.loop_count += 1;
+                self.mark(ind + 1, format!("loop:{}", k));
+                self.push(ind, "{".into(), 0, false);
+                self.push(ind + 1, "let it_item = iter_next(h, &mut it_for);".into(), ln, true);
+                self.push(ind + 1, "if it_item.is_none() {".into(), ln, false);
+                self.push(ind + 2, "break;".into(), ln, true);
+                self.push(ind + 1, "}".into(), 0, false);
+                self.push(ind + 1, format!("let {} = it_item.unwrap();", pat), ln, true);
+                self.mark(ind + 1, format!("loophead:{}", k));
+                self.break_targets.push(None);
+                self.block(&fl.body, ind + 1);
+                self.break_targets.pop();
                 self.mark(ind + 1, format!("loopend:{}", k));
                 self.push(ind, "}".into(), 0, false);
             }
